@@ -248,26 +248,38 @@ def trailer_case(rng):
 
 def multiline_case(rng):
     """field definitions spread over several lines, with comments above / inline on the opening line / docstring below;
-    string defaults containing '#' only together with an inline comment (without one: finding C19-multiline-hash)"""
+    string defaults containing '#' with and without an inline comment (without one the inline text is empty: 9e297b8)"""
     spec = random_class_case(rng) if rng.random() < 0.6 else chain_case(rng)
     for c in spec["classes"]:
         for b in c["blocks"]:
             if b["default"] is not None and rng.random() < 0.6:
                 b["multiline"] = True
-                if b["inline"] is not None and rng.random() < 0.5:
+                if rng.random() < 0.8:
+                    b["below"] = None           # (a docstring below such a definition: finding C19-docstring-below-multiline)
+                if rng.random() < 0.5:
                     b["ann"], b["default"] = "str", rng.choice(['"#fff"', "'a # b'"])
     spec["stream"] = "multiline"
     return spec
 
 
-def finding_multiline_hash(rng):
-    """a multi-line definition whose opening line has a '#' inside a string literal and NO comment"""
+def multiline_hash_case(rng):
+    """(repaired finding, 9e297b8) a multi-line definition whose opening line has a '#' inside a string and NO comment"""
     mk = Mk()
     b0 = mk_block(rng, mk, "color", rng.choice([set(), {"above"}, {"help"}]))
     b0.update(ann="str", default=rng.choice(['"#fff"', "'x #y'"]), inline=None, below=None, multiline=True)
     b1 = mk_block(rng, mk, "ab", rand_positions(rng) - {"cls"})
     blocks = [b0, b1] if rng.random() < 0.5 else [b1, b0]
-    return {"stream": "finding:multiline-hash", "classes": [mk_class(rng, mk, "C0", None, blocks, [])], "target": "C0"}
+    return {"stream": "multiline", "classes": [mk_class(rng, mk, "C0", None, blocks, [])], "target": "C0"}
+
+
+def finding_below_multiline(rng):
+    """a docstring below a definition that is spread over several lines"""
+    mk = Mk()
+    b0 = mk_block(rng, mk, "a", rng.choice([{"below"}, {"below", "above"}, {"below", "inline"}]))
+    b0["multiline"] = True
+    b1 = mk_block(rng, mk, "ab", rand_positions(rng) - {"cls"})
+    blocks = [b0, b1] if rng.random() < 0.5 else [b1, b0]
+    return {"stream": "finding:docstring-below-multiline", "classes": [mk_class(rng, mk, "C0", None, blocks, [])], "target": "C0"}
 
 
 # ---- streams of the recorded (open) findings: each is known to fail, kept small
@@ -445,6 +457,8 @@ def gen(rng, tier):
         specs.append(dynamic_base_case(rng))
     for _ in range(40 if quick else 400):
         specs.append(multiline_case(rng))
+    for _ in range(10 if quick else 100):
+        specs.append(multiline_hash_case(rng))
     for _ in range(20 if quick else 300):
         specs.append(clsdoc_inherited_case(rng))
         specs.append(header_comment_case(rng))
@@ -461,7 +475,7 @@ def gen(rng, tier):
     # (d'') streams of the open findings
     for _ in range(3 if quick else 20):
         for f in (finding_classdoc_escape, finding_docstring_colon, finding_multiline_header, finding_method_local,
-                  finding_multiline_hash):
+                  finding_below_multiline):
             spec = f(rng)
             yield {"op": "doc.scan", "case": spec}
             yield {"op": "doc.help", "case": spec}
@@ -933,19 +947,6 @@ def _without_multiline_below(spec):
 
 
 def oracle(case, obs):
-    """the property is stated for dataclasses written with one field per line: for a definition spread over several lines
-    the docstring below it is accepted either way (found, or not found — as if it were not there); everything else (own
-    comment above / inline comment of the opening line, no foreign text, no invented text) is demanded as usual"""
-    fails = _oracle(case, obs)
-    spec = case.get("case")
-    if fails and case["op"] in ("doc.scan", "doc.help") and isinstance(spec, dict) and "classes" in spec:
-        alt = _without_multiline_below(spec)
-        if alt is not None:
-            return _oracle(dict(case, case=alt), obs)    # [] when dropping those docstrings explains everything
-    return fails
-
-
-def _oracle(case, obs):
     op, spec = case["op"], case["case"]
     if op == "doc.line":
         return []
@@ -1303,23 +1304,21 @@ def _diamond_history_sig(case, obs, fail):
     return False
 
 
-def _multiline_hash_sig(case, obs, fail):
-    if case.get("op") == "doc.inline":
-        line = (case.get("case") or {}).get("line", "")
-        return (fail.get("clause") == "inline-own-comment" and any(line == t for t in INLINE_OPEN) and "#" in line
-                and obs.get("inline") == line.split("#", 1)[1].strip())
+def _below_multiline_sig(case, obs, fail):
     spec = _sub(case, fail)
-    if spec is None or fail.get("clause") not in ("no-invented-text", "precedence") or fail.get("kind") not in ("inline", "help"):
+    if spec is None or fail.get("clause") not in ("nearest-provider", "precedence") or fail.get("kind") not in ("below", "help"):
         return False
-    b = effective_blocks(spec).get(fail.get("field"))
-    if not b or not b.get("multiline") or b["inline"] is not None or "#" not in b["default"]:
+    f = fail.get("field")
+    alt = _without_multiline_below(spec)
+    if alt is None or not any(b["name"] == f and b.get("multiline") and b["below"] for c in chain_of(spec) for b in c["blocks"]):
         return False
-    first_line = render_block(b)[len(b["above"]) + b["gap1"]]
-    return fail.get("got") == [first_line.split("#", 1)[1].strip()]
+    # what is observed is exactly what the layout documents once the docstrings below multi-line definitions are ignored
+    exp = expected_help(alt, f) if fail["kind"] == "help" else expected_kind(alt, f, "below")
+    return fail.get("got") == exp and exp != fail.get("exp")
 
 
 FINDINGS = {
-    "C19-multiline-hash": _multiline_hash_sig,
+    "C19-docstring-below-multiline": _below_multiline_sig,
     "C19-classdoc-escape": _classdoc_escape_sig,
     "C19-docstring-colon": _docstring_colon_sig,
     "C19-multiline-header": _multiline_header_sig,
@@ -1328,7 +1327,7 @@ FINDINGS = {
 }
 
 MANIFEST = {
-    "text": ("Proof on the layout grammar (partial: five open findings with witnesses and named exclusions). PROVED for all "
+    "text": ("Proof on the layout grammar (partial: six open findings with witnesses and named exclusions). PROVED for all "
              "inputs (Lean, line-scanner model of docstring.py): on every class source that splits into header lines and "
              "well-formed field blocks the scan for a name returns exactly the documentation of the block of that name "
              "(arbitrary inline text, punctuation in comments and docstrings, prefix-related names, comments on class / "
@@ -1348,7 +1347,8 @@ MANIFEST = {
              "ASCII sources. The tokenizer-based inline-comment extraction is modelled as 'first # outside a string literal'; "
              "other definition lines are answered `unmodelled` and counted. Open findings: class docstring with an escape "
              "sequence is not removed; `name: text` line inside a multi-line field docstring; comment inside a multi-line "
-             "class header; annotated local of a method; diamond hierarchies answer history-dependently."),
+             "class header; annotated local of a method; diamond hierarchies answer history-dependently; the docstring below a "
+             "definition that is spread over several lines is not found."),
     "technique": "Lean 4 induction over source-line blocks + differential correspondence on generated modules",
     "design_ref": "DESIGN.md section 5, C19",
 }
